@@ -926,14 +926,28 @@ Qed.
 Inductive gop : Type :=
 | GReq (s : nat) (r : pd)
 | GClone (s : nat)
-| GGet (s : nat) (g : getter).
+| GGet (s : nat) (g : getter)
+| GPure (s : nat).   (* a pure evaluator of the public API ([*_contributions], ideal-gas-only evaluations, ...):
+                        per the source it never goes through [get_or_compute_derivative_residual] *)
 
 Definition expand (nc : nat) (o : gop) : list op :=
   match o with
   | GReq s r => [Req s r]
   | GClone s => [Clone s]
   | GGet s g => map (Req s) (getter_requests nc g)
+  | GPure _ => []
   end.
+
+Definition is_pure (o : gop) : bool := match o with GPure _ => true | _ => false end.
+
+(** pure evaluators are invisible: a history with them is, for the cache and for every later response, the history
+    without them *)
+Lemma pure_evaluators_invisible : forall nc (h : list gop),
+  flat_map (expand nc) (filter (fun o => negb (is_pure o)) h) = flat_map (expand nc) h.
+Proof.
+  intros nc h. induction h as [|o h IH]; simpl; auto.
+  destruct o; simpl; rewrite IH; reflexivity.
+Qed.
 
 (** * Replay of recorded histories ([V := Z], bit patterns) *)
 
